@@ -2,14 +2,18 @@
 (* Algebraic lemmas of the pipeline itself over an enumerated universe of source layouts and option
    combinations (no implementation involved). *)
 EXTENDS Rdump
+CONSTANT Small
 R1 == <<Rec(1, "A"), Rec(2, "B"), Rec(3, "A")>>
 R2 == <<Rec(4, "B"), Rec(5, "A"), Rec(6, "B")>>
 R3 == <<Rec(7, "A")>>
 SrcChoices(rs) == {[kind |-> "good", recs |-> rs, keep |-> Len(rs)], [kind |-> "missing", recs |-> rs, keep |-> 0],
                    [kind |-> "garbage", recs |-> rs, keep |-> 0]} \cup {[kind |-> "trunc", recs |-> rs, keep |-> k] : k \in 0..(Len(rs) - 1)}
 Layouts == {<<x, y, z>> : x \in SrcChoices(R1), y \in SrcChoices(R2), z \in SrcChoices(R3)}
-Cfgs == [skip : 0..2, cnt : {0, 1, 3}, sel : Sels, fields : {<<>>, <<"n">>, <<"other", "n", "bogus">>, <<"t2", "n", "t1">>}, excl : {<<>>, <<"s">>, <<"t1">>},
-         override : BOOLEAN, mts : BOOLEAN, split : {0, 2}]
+Cfgs == IF Small
+        THEN [skip : {0, 1}, cnt : {0, 2}, sel : {"none", "other_y", "n_ge_other"}, fields : {<<>>, <<"t2", "n", "t1">>}, excl : {<<>>, <<"t1">>},
+              override : {FALSE}, mts : BOOLEAN, split : {0, 2}]
+        ELSE [skip : 0..2, cnt : {0, 1, 3}, sel : Sels, fields : {<<>>, <<"n">>, <<"other", "n", "bogus">>, <<"t2", "n", "t1">>}, excl : {<<>>, <<"s">>, <<"t1">>},
+              override : BOOLEAN, mts : BOOLEAN, split : {0, 2}]
 VARIABLES lay, cfg
 vars == <<lay, cfg>>
 Init == lay \in Layouts /\ cfg \in Cfgs
